@@ -273,13 +273,9 @@ func (c *ColumnImage) UnmarshalJSON(data []byte) error {
 
 	if value != nil {
 		switch JDBCType(columnType) {
-		case JDBCTypeReal: // 4 Bytes
-			var f float64
-			if f, err = floatValue(); err != nil {
-				return err
-			}
-			actualValue = float32(f)
-		case JDBCTypeDecimal, JDBCTypeDouble, JDBCTypeFloat, JDBCTypeNumberic: // 8 Bytes
+		case JDBCTypeReal, JDBCTypeDecimal, JDBCTypeDouble, JDBCTypeFloat, JDBCTypeNumberic:
+			// FLOAT columns are scanned into float64 like DOUBLE ones; narrowing the decoded value to
+			// float32 would make it differ from the same column read again (0.1 != float64(float32(0.1)))
 			if actualValue, err = floatValue(); err != nil {
 				return err
 			}
